@@ -713,6 +713,18 @@ class Evaluator:
             if isinstance(st, (ast.FunctionDef, ast.ClassDef)):
                 fr.env[st.name] = ("localdef", st.name)
                 continue
+            if isinstance(st, ast.Match):
+                from .normalize import match_as_if
+                chain = match_as_if(self.model, fr.fn, st)
+                if chain is not None:
+                    sub = self.block(chain, fr, live)
+                    live = FALSE
+                    for o in sub:
+                        if o.kind == "fall":
+                            live = o.cond
+                        else:
+                            outs.append(o)
+                    continue
             if isinstance(st, ast.For) and not st.orelse and not any(isinstance(n, (ast.Break, ast.Continue)) for n in ast.walk(st)):
                 # a loop over a display of known length is the straight-line code it abbreviates
                 it = self.expr(st.iter, fr)
@@ -951,6 +963,11 @@ class Evaluator:
             gens.append((it, conds))
         elt = self.expr(e.elt, inner)
         kind = {ast.ListComp: "list", ast.GeneratorExp: "gen", ast.SetComp: "set"}[type(e)]
+        if kind == "list" and len(gens) == 1 and not gens[0][1] and gens[0][0][0] in ("list", "tuple") and len(gens[0][0][1]) <= 8 \
+                and not any(x[0] == "star" for x in gens[0][0][1]) and isinstance(e.generators[0].target, ast.Name):
+            # a comprehension over a display of known length is the display of its images
+            b = ("bound", fr.depth, 0, show(gens[0][0]))
+            return ("list", tuple(subst(elt, {b: item}) for item in gens[0][0][1]))
         return ("comp", kind, elt, tuple(gens))
 
     def _instance_assigned(self, c: ClassInfo, name: str) -> bool:
